@@ -42,12 +42,23 @@ Sorted(S) == IF S = {} THEN <<>> ELSE LET m == CHOOSE x \in S : \A y \in S : x <
 Dags == { d \in [Colls -> SUBSET Colls] : \A i \in Colls : d[i] \subseteq 1..(i - 1) /\ Cardinality(d[i]) <= 2 }
 NonEmpty == (SUBSET Colls) \ {{}}
 
+\* second = {}: one call.  Otherwise TWO calls that share a member and whose results are used in one graph:
+\*   wait_on / checkpoint: a second group of collections (second) that shares a collection with the first;
+\*   bind: the same child bound to other parents (second);   clone: the same children cloned with another seed.
+Singletons == { {i} : i \in Colls }
 Cases ==
   UNION {
-    (IF "clone" \in Ops THEN [dag : {d}, op : {"clone"}, children : NonEmpty, parents : {{}}, omit : SUBSET Colls] ELSE {})
-    \cup (IF "bind" \in Ops THEN [dag : {d}, op : {"bind"}, children : NonEmpty, parents : NonEmpty, omit : SUBSET Colls] ELSE {})
-    \cup (IF "wait_on" \in Ops THEN [dag : {d}, op : {"wait_on"}, children : NonEmpty, parents : {{}}, omit : {{}}] ELSE {})
-    \cup (IF "checkpoint" \in Ops THEN [dag : {d}, op : {"checkpoint"}, children : NonEmpty, parents : {{}}, omit : {{}}] ELSE {})
+    (IF "clone" \in Ops THEN [dag : {d}, op : {"clone"}, children : NonEmpty, parents : {{}}, omit : SUBSET Colls, second : {{}}]
+                              \cup { [dag |-> d, op |-> "clone", children |-> ch, parents |-> {}, omit |-> {}, second |-> ch] : ch \in NonEmpty }
+     ELSE {})
+    \cup (IF "bind" \in Ops THEN [dag : {d}, op : {"bind"}, children : NonEmpty, parents : NonEmpty, omit : SUBSET Colls, second : {{}}]
+                                 \cup { x \in [dag : {d}, op : {"bind"}, children : Singletons, parents : NonEmpty, omit : {{}}, second : Singletons]
+                                         : x.second # x.parents }
+           ELSE {})
+    \cup (IF "wait_on" \in Ops THEN { x \in [dag : {d}, op : {"wait_on"}, children : NonEmpty, parents : {{}}, omit : {{}}, second : SUBSET Colls]
+                                        : x.second = {} \/ (x.second # x.children /\ x.second \cap x.children # {}) } ELSE {})
+    \cup (IF "checkpoint" \in Ops THEN { x \in [dag : {d}, op : {"checkpoint"}, children : NonEmpty, parents : {{}}, omit : {{}}, second : SUBSET Colls]
+                                           : x.second = {} \/ (x.second # x.children /\ x.second \cap x.children # {}) } ELSE {})
     : d \in Dags }
 
 \* omit names collections the children are built from (or unrelated ones): a call that omits a child, or a
@@ -59,7 +70,8 @@ Meaningful(c) == c.children \cap AncOrSelf(c.dag, c.omit) = {}
 
 \* ---------------------------------------------------------------- reference graphs
 K(i, j, gen) == <<i, j, gen>>
-BKey == <<0, 0, 9>>
+BKeyT(tag) == <<0, 0, 9 + tag>>
+BKey == BKeyT(0)
 
 G0(c) == [k \in { K(i, j, 0) : i \in Colls, j \in Chunks } |->
             LET ds == Sorted(c.dag[k[1]]) IN
@@ -78,36 +90,49 @@ Blocker(S) == Call("CHECKPOINT", <<ListE([x \in DOMAIN SeqChunks(S, 0) |-> Ref(S
 
 Merge(f, h) == [k \in (DOMAIN f) \cup (DOMAIN h) |-> IF k \in DOMAIN h THEN h[k] ELSE f[k]]
 
-G2(c) ==
+\* the result of one call; tag = 0 / 1 keeps the keys of two calls apart (another seed, another blocker)
+G2T(c, tag) ==
   LET g  == G0(c)
       rg == Regen(c)
+      g1 == 1 + 10 * tag
+      g2 == 2 + 10 * tag
+      bk == BKeyT(tag)
       bound == c.op = "bind"
       newexpr(i, j) ==
         LET ds == Sorted(c.dag[i])
             e  == Call(FName[i], IF Len(ds) = 0 THEN <<Lit("L")>>
-                                 ELSE [x \in DOMAIN ds |-> Ref(K(ds[x], j, IF ds[x] \in rg /\ Impl = "ref" THEN 1 ELSE 0))])
+                                 ELSE [x \in DOMAIN ds |-> Ref(K(ds[x], j, IF ds[x] \in rg /\ Impl = "ref" THEN g1 ELSE 0))])
             leaf == c.dag[i] \cap rg = {}
-        IN IF bound /\ leaf THEN Call("BIND", <<e, Ref(BKey)>>) ELSE e
+        IN IF bound /\ leaf THEN Call("BIND", <<e, Ref(bk)>>) ELSE e
   IN CASE c.op \in {"clone", "bind"} ->
-            Merge(Merge(g, [k \in ChunksOf(rg, 1) |-> newexpr(k[1], k[2])]),
-                  IF bound THEN [k \in {BKey} |-> Blocker(c.parents)] ELSE [k \in {} |-> NoneT])
+            Merge(Merge(g, [k \in ChunksOf(rg, g1) |-> newexpr(k[1], k[2])]),
+                  IF bound THEN [k \in {bk} |-> Blocker(c.parents)] ELSE [k \in {} |-> NoneT])
        [] c.op = "wait_on" ->
-            Merge(Merge(g, [k \in ChunksOf(c.children, 2) |-> Call("BIND", <<Ref(K(k[1], k[2], 0)), Ref(BKey)>>)]),
-                  [k \in {BKey} |-> Blocker(c.children)])
-       [] c.op = "checkpoint" -> Merge(g, [k \in {BKey} |-> Blocker(c.children)])
+            Merge(Merge(g, [k \in ChunksOf(c.children, g2) |-> Call("BIND", <<Ref(K(k[1], k[2], 0)), Ref(bk)>>)]),
+                  [k \in {bk} |-> Blocker(c.children)])
+       [] c.op = "checkpoint" -> Merge(g, [k \in {bk} |-> Blocker(c.children)])
+
+\* the second call of a configuration
+SecondOf(c) == CASE c.op = "bind"  -> [c EXCEPT !.parents = c.second]
+                 [] c.op = "clone" -> c
+                 [] OTHER          -> [c EXCEPT !.children = c.second]
+Double(c) == c.second # {}
+\* the graph in which the results are used together
+G2(c) == IF Double(c) THEN Merge(G2T(c, 0), G2T(SecondOf(c), 1)) ELSE G2T(c, 0)
 
 Out(c)  == SeqChunks(c.children, 0)
-Out2(c) == CASE c.op \in {"clone", "bind"} -> SeqChunks(c.children, 1)
-             [] c.op = "wait_on"           -> SeqChunks(c.children, 2)
-             [] c.op = "checkpoint"        -> <<BKey>>
+Out2T(c, tag) == CASE c.op \in {"clone", "bind"} -> SeqChunks(c.children, 1 + 10 * tag)
+                   [] c.op = "wait_on"           -> SeqChunks(c.children, 2 + 10 * tag)
+                   [] c.op = "checkpoint"        -> <<BKeyT(tag)>>
+Out2(c) == Out2T(c, 0)
 OmitOut(c)   == ChunksOf(c.omit, 0)
 ParentOut(c) == ChunksOf(c.parents, 0)
 
 \* collections whose ORIGINAL chunks the result still needs
-KeptNeeded(c) == { i \in Colls : \E j \in Chunks : K(i, j, 0) \in Needed(G2(c), RangeS(Out2(c))) }
+KeptNeeded(c) == { i \in Colls : \E j \in Chunks : K(i, j, 0) \in Needed(G2T(c, 0), RangeS(Out2(c))) }
 
 Export(c) == [n |-> N, dag |-> [i \in Colls |-> Sorted(c.dag[i])], op |-> c.op, children |-> Sorted(c.children),
-              parents |-> Sorted(c.parents), omit |-> Sorted(c.omit),
+              parents |-> Sorted(c.parents), omit |-> Sorted(c.omit), second |-> Sorted(c.second),
               regen |-> IF c.op \in {"clone", "bind"} THEN Sorted(Regen(c)) ELSE <<>>,
               kept |-> Sorted(KeptNeeded(c))]
 
@@ -116,11 +141,20 @@ Init == /\ case \in { c \in Cases : Meaningful(c) }
 Next == UNCHANGED <<case, out>>
 
 \* ---------------------------------------------------------------- the contract holds for the reference
-RefDenotes       == Denotes(case.op, G0(case), Out(case), G2(case), Out2(case))
-RefDisjoint      == case.op \in {"clone", "bind"} => Disjoint(Out(case), Out2(case), OmitOut(case))
+\* every clause for the first call and, in a double configuration, for the second call - both in the joint graph
+C2 == SecondOf(case)
+RefDenotes       == /\ Denotes(case.op, G0(case), Out(case), G2(case), Out2T(case, 0))
+                    /\ Double(case) => Denotes(case.op, G0(case), Out(C2), G2(case), Out2T(C2, 1))
+RefDisjoint      == case.op \in {"clone", "bind"} =>
+                      /\ Disjoint(Out(case), Out2T(case, 0), OmitOut(case))
+                      /\ Double(case) => Disjoint(Out(C2), Out2T(C2, 1), OmitOut(C2))
 RefRegenerated   == case.op \in {"clone", "bind"} =>
-                      Regenerated(G0(case), G2(case), Out2(case), OmitOut(case) \cup ParentOut(case))
-RefHappensBefore == HappensBefore(case.op, G0(case), Out(case), G2(case), Out2(case), ParentOut(case))
+                      /\ Regenerated(G0(case), G2(case), Out2T(case, 0), OmitOut(case) \cup ParentOut(case))
+                      /\ Double(case) => Regenerated(G0(case), G2(case), Out2T(C2, 1), OmitOut(C2) \cup ParentOut(C2))
+RefHappensBefore == /\ HappensBefore(case.op, G0(case), Out(case), G2(case), Out2T(case, 0), ParentOut(case))
+                    /\ Double(case) => HappensBefore(case.op, G0(case), Out(C2), G2(case), Out2T(C2, 1), ParentOut(C2))
 \* bind really binds something: the clause is not vacuous
 RefBindsSomething == case.op = "bind" => ChildTasks(G0(case), G2(case), Out2(case)) # {}
+\* the results of two different calls are different tasks
+RefSeparate == Double(case) => RangeS(Out2T(case, 0)) \cap RangeS(Out2T(C2, 1)) = {}
 =============================================================================
